@@ -33,8 +33,9 @@ ADVERSARIAL = STR_POOL + ["true", " 7 ", "7 ", "\t7", "1__0", "_1", "1_", "--1",
                           "1677-01-01", "3000-01-01", "1 day", "5min", "P1D", "9223372036854775808",
                           "-9223372036854775809", "18446744073709551615", "18446744073709551616", "255", "256", "-129",
                           "dir0", "part.0.parquet", "k=v"]
-KINDS = [[0, True, 64], [0, True, 8], [0, True, 32], [0, False, 8], [0, False, 64], [1], [2], [3, False], [3, True], [4, True], [4, False], [5], [7]]
-META_OF_KIND = {
+KINDS = [[0, True, 64], [0, True, 8], [0, True, 32], [0, False, 8], [0, False, 64], [1], [2], [3, False], [3, True], [4, True], [4, False], [5], [7],
+         [5, [0, True, 64]], [5, [0, True, 8]], [5, [1]], [5, [2]], [5, [3, False]], [5, [4, True]], [5, [7]]]    # categorical with recorded label type
+_META_OF_KIND = {
     (0, True, 64): {"pandas_type": "int64", "numpy_type": "int64"},
     (0, True, 8): {"pandas_type": "int8", "numpy_type": "int8"},
     (0, True, 32): {"pandas_type": "int32", "numpy_type": "int32"},
@@ -49,6 +50,13 @@ META_OF_KIND = {
     (5,): {"pandas_type": "categorical", "numpy_type": "int8"},
     (7,): {"pandas_type": "datetimetz", "numpy_type": "datetime64[ns, UTC]", "metadata": {"timezone": "UTC"}},
 }
+
+
+def meta_of_kind(kind):
+    """model kind (s-expression) -> a pandas-metadata block as fastparquet writes it"""
+    if kind[0] == 5 and len(kind) > 1:
+        return {"pandas_type": "categorical", "numpy_type": "int8", "metadata": {"num_categories": 3, "ordered": False, "labels": meta_of_kind(kind[1])}}
+    return dict(_META_OF_KIND[tuple(kind)])
 
 
 def rand_typed_value(rng):
@@ -170,12 +178,12 @@ def _run(ctx, pq):
             x = util.path_string(v)
         else:
             x = rng.choice(ADVERSARIAL)
-        if kind[0] in (4, 7) and x.strip().lower() in ("now", "today"):
+        if (kind[0] in (4, 7) or (kind[0] == 5 and len(kind) > 1 and kind[1][0] in (4, 7))) and x.strip().lower() in ("now", "today"):
             x = "2001-02-03"            # np.datetime64("now") is the wall clock: not a function of the text
         texts.append((kind, x))
     table = L.oracle_table([x for _, x in texts])
     for kind, x in texts:
-        m = dict(META_OF_KIND[tuple(kind)])
+        m = meta_of_kind(kind)
         cmds.append(("val_from_meta", kind, L.enc(x), [e for e in table if e[0] == L.enc(x)]))
         impl = _impl_call(util.val_from_meta, x, m)
         meta.append(({"corr": "val_from_meta", "kind": kind, "text": x}, impl))
@@ -216,7 +224,8 @@ def _run(ctx, pq):
         names = rng.sample(["a", "b", "c_1", "dir0", "Key"], depth)
         kinds = [rng.choice(KINDS + [None, None]) for _ in range(depth)]
         pools = []
-        any_time = any(kd is not None and kd[0] in (4, 7) for kd in kinds)     # "now" is the wall clock for time kinds
+        any_time = any(kd is not None and (kd[0] in (4, 7) or (kd[0] == 5 and len(kd) > 1 and kd[1][0] in (4, 7)))
+                       for kd in kinds)     # "now" is the wall clock for time kinds
         for kd in kinds:
             pool = []
             for _ in range(rng.choice([1, 2, 3])):
@@ -226,8 +235,9 @@ def _run(ctx, pq):
                 else:
                     while True:
                         v, k = rand_typed_value(rng)
-                        if {0: "i", 1: "b", 2: "s", 3: "f", 4: "t", 5: "s", 7: "t"}[kd[0]] == k and \
-                                (k != "t" or (getattr(v, "tzinfo", None) is not None) == (kd[0] == 7)):
+                        bk = kd[1] if (kd[0] == 5 and len(kd) > 1) else kd        # labels of a categorical with recorded type
+                        if {0: "i", 1: "b", 2: "s", 3: "f", 4: "t", 5: "s", 7: "t"}[bk[0]] == k and \
+                                (k != "t" or (getattr(v, "tzinfo", None) is not None) == (bk[0] == 7)):
                             break
                     t = util.path_string(v)
                     pool.append(t if L.legal_text(t, True) else "z")
@@ -247,7 +257,7 @@ def _run(ctx, pq):
             d = "/".join(segs)
             if d not in dirs:
                 dirs.append(d)
-        pm = {nm: dict(META_OF_KIND[tuple(kd)], field_name=nm) for nm, kd in zip(names, kinds) if kd is not None}
+        pm = {nm: dict(meta_of_kind(kd), field_name=nm) for nm, kd in zip(names, kinds) if kd is not None}
         pmx = [[L.enc(nm), kd] for nm, kd in zip(names, kinds) if kd is not None]
         alltexts = [t for d in dirs for seg in d.split("/") for t in ([seg] + seg.split("="))]
         table = L.oracle_table(alltexts)
@@ -397,8 +407,11 @@ def gen_column(rng, kind, n, drill):
         return pd.Series(a).dt.tz_localize("UTC").dt.tz_convert(rng.choice(["UTC", "Europe/Berlin", "America/New_York", "Asia/Kolkata"]))
     if kind == "allnull":
         return pd.Series(np.array([None if (r // 2) % 2 == 0 else "z" for r in range(n)], dtype=object))
-    if kind == "catnum":
-        cats = rng.sample([1, 2, 3, 10, -4], 3)
+    if kind == "catnum":       # categorical whose labels are numbers, booleans or timestamps (label type recorded since fix)
+        lt = rng.choice(["int", "int", "float", "bool", "ts", "i8"])
+        cats = {"int": rng.sample([1, 2, 3, 10, -4, 2**40], 3), "float": rng.sample([0.5, 2.0, -1.25, 1e10], 3), "bool": [True, False],
+                "ts": [pd.Timestamp("2020-01-01"), pd.Timestamp("2020-01-02 03:04:05.123456"), pd.Timestamp("1999-12-31 23:59:59")],
+                "i8": list(np.array(rng.sample([1, -3, 7, 100], 3), dtype="int8"))}[lt]
         codes = [rng.randrange(2) for _ in range(n)]
         return pd.Series(pd.Categorical.from_codes(codes, categories=cats))
     raise ValueError(kind)
@@ -591,7 +604,7 @@ def check_dataset(case, root, pq, ctx=None, verbose=False):
                     gotc = sorted({json.dumps(L.canon(v)) for v in pf.cats.get(c, [])})
                 except Exception as e:      # noqa
                     gotc = ["raises %s" % type(e).__name__]
-                if gotc != wantc and not (is_cat[c] and label_kind[c] != "s"):
+                if gotc != wantc:
                     problems.append("ParquetFile.cats[%r] = %s, keys written %s" % (c, gotc[:6], wantc[:6]))
                     cls_extra["mismatch"] = "value"
         by_id = {}
